@@ -319,6 +319,15 @@ class StmtMixin:
     def st_For(self, n, st):
         if n.orelse:
             raise Unsupported("for/else")
+        if isinstance(n.iter, ast.Call) and isinstance(n.iter.func, ast.Name) and n.iter.func.id == "enumerate" and len(n.iter.args) == 1 \
+                and isinstance(n.target, ast.Tuple) and len(n.target.elts) == 2 and isinstance(n.target.elts[0], ast.Name):
+            # for index, x in enumerate(seq): the index variable is the loop position
+            for st1, it in self.ev(n.iter.args[0], st):
+                if isinstance(it, Raise):
+                    yield st1, ("raise", it)
+                    continue
+                yield from self.for_symbolic(n, st1, it, index_name=n.target.elts[0].id, elem_target=n.target.elts[1])
+            return
         for st1, it in self.ev(n.iter, st):
             if isinstance(it, Raise):
                 yield st1, ("raise", it)
@@ -341,7 +350,7 @@ class StmtMixin:
                 else:
                     yield s2, flow
 
-    def for_symbolic(self, n, st, it):
+    def for_symbolic(self, n, st, it, index_name=None, elem_target=None):
         k, spec = self.loop_spec(n)
         itername = n.iter.id if (it.ty == "iter" and isinstance(n.iter, ast.Name)) else None
         if it.ty == "iter":
@@ -375,7 +384,9 @@ class StmtMixin:
             return
         if itername:
             s_in.env[itername] = Val(None, "iter", (seq, pos + 1))
-        for s1, fl in self.assign(s_in, n.target, Val(seq.t[pos], seq.ty[1]), n):
+        if index_name is not None:
+            s_in.env[index_name] = Val(pos, "int")
+        for s1, fl in self.assign(s_in, elem_target if elem_target is not None else n.target, Val(seq.t[pos], seq.ty[1]), n):
             for st2, flow in self.exec_block(n.body, s1):
                 if flow[0] in ("normal", "continue"):
                     nxt = st2.env[itername].py[1] if itername else pos + 1
